@@ -50,7 +50,7 @@ class Prop:
             "evaluation.  non-trivial = at least 3 value-returning requests with at least one non-zero, non-sentinel "
             "result that needed >= 2 terms; distinct = distinct sha256 of the event log")
     probes = ["k2", "k3", "k4", "herm_adjpair", "herm_sandwich", "herm_nonadjoint", "domain_float", "domain_tracer",
-              "result_one", "result_zero", "result_value", "multi_term_result", "discipline_checked", "highest_order_checked",
+              "result_one", "result_zero", "result_value", "multi_term_result", "discipline_checked", "highest_order_checked", "highest_order_truth_checked",
               "op_array", "op_view", "repeat_cached", "op_mul", "known_finding_signature_hits"]
     components_real = ["pymablock.series.cauchy_dot_product, product_by_order, BlockSeries"]
     components_stub = ["factor series eval callbacks (simulator-owned tables, call log)", "element multiplication wrapper (logging)",
@@ -295,6 +295,19 @@ class Prop:
                             out.add((k, idxs[k]))
             return out
 
+        def allowed_truth(idx_req):
+            """Contract of product_by_order: the highest order of a factor is queried only if the other factors
+            have zeroth-order partners that are *present* (truth of the caller's tables, not mere ignorance)."""
+            i, j, *n = idx_req
+            out = set()
+            for mids in itertools.product(*(range(dims[k]) for k in range(1, K))):
+                chain = (i, *mids, j)
+                for k in range(K):
+                    idxs = [(chain[m], chain[m + 1], *(tuple(n) if m == k else (0,) * ninf)) for m in range(K)]
+                    if all(tables[m].get(idxs[m], zero) is not zero for m in range(K) if m != k):
+                        out.add((k, idxs[k]))
+            return out
+
         ids = np.arange(dims[0] * dims[-1] * (MAXO[ninf] + 1) ** ninf).reshape((dims[0], dims[-1]) + (MAXO[ninf] + 1,) * ninf)
         cells = list(np.ndindex(*ids.shape))
         views = {}
@@ -369,6 +382,21 @@ class Prop:
             requested.update(must)
             # (3) discipline
             req_orders = {c[2:] for c in must}
+            truth = None
+            for (k, idx) in new:
+                o = tuple(idx[2:])
+                if sum(o) > 0 and o in req_orders and not any(n != o and all(a <= b for a, b in zip(o, n)) for n in req_orders):
+                    if truth is None:
+                        truth = set()
+                        for c in must:
+                            truth |= allowed_truth(c)
+                            if declared:
+                                truth |= allowed_truth((c[1], c[0], *c[2:]))
+                    bump("highest_order_truth_checked")
+                    if (k, idx) not in truth:
+                        fail("discipline-highest-order", f"op#{opi} {op}: factor {NAMES[k]} evaluated at the full requested order {idx} although the other factors have no present zeroth-order partner (recurrent definitions would not terminate)",
+                             {"factor": k, "idx": list(idx)})
+                        break
             for (k, idx) in new:
                 if K == 2:
                     bump("discipline_checked")
